@@ -305,6 +305,8 @@ pub struct AllAuth {
     // generation-only state
     g_pre_done: usize,
     g_cell_done: bool,
+    /// phase-B cells: an authorised call of the same variant was (possibly) made before the hand-over
+    g_warm_done: bool,
     g_extra_done: usize,
     g_cell_tries: usize,
 }
@@ -1348,7 +1350,7 @@ impl Scenario for AllAuth {
                 if e.contains("harness: setup exec") && refused_with(&text, &all) {
                     ctx.eval("C16");
                     ctx.fail("C16", "authorised_not_refused", "setup", None, format!("a configuration call of the hub deployer (the configured owner) was refused for authorisation during setup: {text}"));
-                    let mut s = AllAuth { cfg: cfg.clone(), h: Hub::bare(), owner: BTreeMap::new(), prev: BTreeMap::new(), lps: vec![], g_pre_done: 0, g_cell_done: true, g_extra_done: usize::MAX / 4, g_cell_tries: 0 };
+                    let mut s = AllAuth { cfg: cfg.clone(), h: Hub::bare(), owner: BTreeMap::new(), prev: BTreeMap::new(), lps: vec![], g_pre_done: 0, g_cell_done: true, g_extra_done: usize::MAX / 4, g_cell_tries: 0, g_warm_done: false };
                     s.cfg.extra = 0;
                     s.cfg.pre = 0;
                     return s;
@@ -1372,7 +1374,7 @@ impl Scenario for AllAuth {
         }
         let lps = h.pairs.iter().map(|p| (p.lp.clone(), p.addr.clone())).collect();
         ctx.probe(&format!("matrix_cells_{}_of_{}x2x{}", cells().len(), VARIANTS.len(), ROLES.len()));
-        AllAuth { cfg: cfg.clone(), h, owner, prev: BTreeMap::new(), lps, g_pre_done: 0, g_cell_done: false, g_extra_done: 0, g_cell_tries: 0 }
+        AllAuth { cfg: cfg.clone(), h, owner, prev: BTreeMap::new(), lps, g_pre_done: 0, g_cell_done: false, g_extra_done: 0, g_cell_tries: 0, g_warm_done: false }
     }
 
     fn gen_step(&mut self, rng: &mut Rng, ctx: &mut Ctx) -> Option<Step> {
@@ -1384,7 +1386,7 @@ impl Scenario for AllAuth {
             let (v, phase_b, role) = cell_of(self.cfg.cell);
             let d = &VARIANTS[v];
             self.g_cell_tries += 1;
-            if self.g_cell_tries > 4 {
+            if self.g_cell_tries > 8 {
                 self.g_cell_done = true;
                 ctx.probe(&format!("cell_not_arrangeable/{}/{}{}", d.name, if phase_b { "B/" } else { "A/" }, role_tag(role)));
                 return Some(self.gen_traffic(rng));
@@ -1393,6 +1395,23 @@ impl Scenario for AllAuth {
                 // the governing ownership must have been transferred first
                 let idx = 0;
                 let holder = self.owner_holder(d.ct, idx).unwrap_or_default();
+                // (whatever a contract remembers from calls made under the old owner must not outlive the
+                // hand-over: in two runs out of three the owner-to-be-replaced uses the entry point first)
+                // (not for one-shot operations, whose object the warm-up would use up: removals, registrations)
+                let one_shot = ["remove_", "add_", "create_", "migrate"].iter().any(|k| d.name.contains(k));
+                if !self.prev.contains_key(&holder) && !self.g_warm_done && role != Role::Designated && !one_shot {
+                    let needs_flow = d.name == "incentive.close_flow" && self.flows_of(0).iter().all(|f| f.2 != CREATOR);
+                    if needs_flow {
+                        return Some(Step::Traffic { user: 0, op: TOp::OpenFlow { amount: rng.range128(1_000, 1_000_000), label: None, by: None }, adv_ns: 0 });
+                    }
+                    self.g_warm_done = true;
+                    if rng.chance(2, 3) {
+                        if let Some(s) = self.gen_probe_cell(rng, v, Role::Owner, false) {
+                            ctx.probe("authorised_call_before_the_hand_over_generated");
+                            return Some(s);
+                        }
+                    }
+                }
                 if !self.prev.contains_key(&holder) {
                     let to = if self.cfg.new_owner_is_proxy { self.h.proxy.clone() } else { NEWOWNER.to_string() };
                     if let Some(s) = self.gen_transfer(rng, d.ct, idx, &to) {
@@ -1514,6 +1533,12 @@ impl AllAuth {
             return Some(Step::Probe { variant: v, role, idx, eff, top, msgs, inner: None, adv_ns, cell: true });
         }
         let target = self.ct_addr(d.ct, idx)?;
+        // look-alike sibling: a distributor instance the collector is not configured with asks for the fees the way
+        // the real one does (its own NewEpoch); being "a fee distributor that names this collector" authorises nothing
+        if d.name == "fee_collector.forward_fees" && role == Role::Sibling && !self.h.rogue_distributor.is_empty() && rng.chance(1, 2) {
+            let rogue = self.h.rogue_distributor.clone();
+            return Some(Step::Probe { variant: v, role, idx, eff: rogue.clone(), top: user.clone(), msgs: vec![wasm_exec(&rogue, &fee_distributor::ExecuteMsg::NewEpoch {}, vec![])], inner: None, adv_ns: DAY_NS, cell: true });
+        }
         let eff = self.eff_for(v, idx, role, rng)?;
         let attacker = if self.is_contract(&eff) { user.clone() } else { eff.clone() };
         let inner = self.payload(rng, v, idx, &attacker)?;
